@@ -1,0 +1,88 @@
+//go:build verif
+
+// Verification hooks: exported wrappers around unexported functions.
+// Compiled only with the build tag "verif"; adds no behaviour.
+package parser
+
+import "bytes"
+
+type VerifParsedLine struct {
+	Type               int
+	Line               string
+	IncludeFileName    string
+	ExcludeFileNames   []string
+	SuffixReplacements map[string]string
+	Definitions        map[string]string
+	Prefix             string
+	Suffix             string
+	Flags              string
+}
+
+// VerifTypeNames maps the parsedType values to stable names.
+func VerifTypeName(t int) string {
+	switch parsedType(t) {
+	case regular:
+		return "regular"
+	case empty:
+		return "empty"
+	case include:
+		return "include"
+	case includeExcept:
+		return "include-except"
+	case definition:
+		return "definition"
+	case comment:
+		return "comment"
+	case flags:
+		return "flags"
+	case prefix:
+		return "prefix"
+	case suffix:
+		return "suffix"
+	}
+	return "unknown"
+}
+
+func VerifParseLine(line string) VerifParsedLine {
+	p := NewParser(nil, bytes.NewReader(nil))
+	pl := p.parseLine(line)
+	return VerifParsedLine{
+		Type:               int(pl.parsedType),
+		Line:               pl.line,
+		IncludeFileName:    pl.includeFileName,
+		ExcludeFileNames:   pl.excludeFileNames,
+		SuffixReplacements: pl.suffixReplacements,
+		Definitions:        pl.definitions,
+		Prefix:             pl.prefix,
+		Suffix:             pl.suffix,
+		Flags:              pl.flags,
+	}
+}
+
+func VerifExpandDefinitions(src string, variables map[string]string) string {
+	return expandDefinitions(bytes.NewBufferString(src), variables).String()
+}
+
+func VerifReplaceSuffixes(input string, suffixReplacements map[string]string) (string, error) {
+	return replaceSuffixes(bytes.NewBufferString(input), suffixReplacements)
+}
+
+func VerifBuildPairMap(input string) map[string]string {
+	return buildPairMap(input)
+}
+
+func VerifSplitArgs(input string) []string {
+	return splitArgs(input)
+}
+
+func VerifStringFromInclusionLines(lines []string, order []int) string {
+	s := make(inclusionLineSlice, 0, len(lines))
+	for i, l := range lines {
+		s = append(s, inclusionLine{l, order[i]})
+	}
+	return stringFromInclusionLines(s)
+}
+
+func VerifFlagIsAllowed(flag rune) bool {
+	return flagIsAllowed(flag)
+}
